@@ -193,8 +193,15 @@ func (c *Ctx) slStep(s *slState) string {
 		return "concat"
 	case 11:
 		a, b := idx(1), 1+idx(1)
-		if r.Chance(50) && n > 0 {
-			a, b = 0, n // the whole range
+		switch r.Intn(6) {
+		case 0, 1, 2:
+			if n > 0 {
+				a, b = 0, n // the whole range
+			}
+		case 3:
+			b = -r.Intn(n + 2) // an end counted from the end of the list (0 is the end itself; below -Count: panic)
+		case 4:
+			a = -1 - r.Intn(2) // a negative start: panic
 		}
 		c.slDo(s, fmt.Sprintf("subList %d %d %d", k, a, b), func() at.List { return l.SubList(a, b) })
 		return "subList"
